@@ -261,12 +261,15 @@ def task(args):
         for t in args[1]:
             for depth in (2, 5, 20, 40):
                 for pad in (0, 4, 6, 8, 12, 22):
-                    for cut in (False, True):
+                    # (cut 2 / 3: at every level a malformed sibling stands behind the nested TLV - a sub-TLV decoder that raises, a
+                    # length that overruns: an error path that decodes the level again doubles the work per level)
+                    for cut in (False, True, 2, 3):
                         inner = struct.pack('!HH', t, 4) + b'\x01\x02\x03\x04'
-                        if cut:
+                        if cut is True:
                             inner = inner[:5]
+                        sib = {2: struct.pack('!HH', 1252, 1) + b'\x00', 3: struct.pack('!HH', t, 9) + b'\x01'}.get(cut, b'') if cut is not True else b''
                         for _ in range(depth):
-                            val = b'\x00' * pad + inner
+                            val = b'\x00' * pad + inner + sib
                             if len(val) > 4000:
                                 break
                             inner = struct.pack('!HH', t, len(val)) + val
